@@ -65,6 +65,15 @@ type Exec struct {
 	lines   int
 	stats   map[string]int
 	aborted bool
+	// file-operation observation (only with the shimmed copy of the package)
+	fsops    []string // classified mutations of the current call
+	nmut     int      // mutations so far in this history
+	crashAt  int      // stop the process just before the n-th mutation (0 = never)
+	failAt   int      // fail the n-th mutation with an I/O error (0 = never)
+	curCall  func() string
+	stateOut string
+	failed   bool
+	lower    bool
 }
 
 func NewExec(root string, out io.Writer, seed int64) *Exec {
@@ -165,8 +174,111 @@ func (e *Exec) objsToken(objs []sod.Object, sorted bool) string {
 
 func (e *Exec) emit(call, result string) {
 	fmt.Fprintf(e.out, "%s => %s\n", call, result)
-	e.out.Flush()
 	e.lines++
+	if shimEnabled && !strings.HasPrefix(call, "casemap") && !strings.HasPrefix(call, "open") {
+		// the directory mutations the call performed, in order
+		fmt.Fprintf(e.out, "fsops => %s\n", strings.Join(e.fsops, " "))
+		e.lines++
+	}
+	e.fsops = e.fsops[:0]
+	e.out.Flush()
+}
+
+// classify maps a mutated path to what the model logs: w:<handle> / r:<handle> for an object
+// file, ws / rs for schema.json, mk for the collection directory, drop for the whole database.
+// Temporary files (dot-prefixed) are invisible to the database and are not logged.
+func (e *Exec) classify(op, path string) string {
+	base := filepath.Base(path)
+	suffix := e.ext
+	if e.gz {
+		suffix += ".gz"
+	}
+	switch {
+	case op == "removeall":
+		return "drop"
+	case op == "mkdir":
+		return "mk"
+	case strings.HasPrefix(base, "."):
+		return ""
+	case op == "created":
+		// a file of the database was opened for writing in place: it is now empty
+		if base == sod.SchemaFilename {
+			return "trunc:schema"
+		}
+		return "trunc:" + base
+	case base == sod.SchemaFilename:
+		if op == "rename" {
+			return "ws"
+		} else if op == "remove" {
+			return "rs"
+		}
+		return "direct-" + op + ":schema"
+	case len(base) >= 36:
+		h := e.handle(base[:36])
+		if op == "rename" {
+			return fmt.Sprintf("w:%d", h)
+		} else if op == "remove" {
+			return fmt.Sprintf("r:%d", h)
+		}
+		return fmt.Sprintf("direct-%s:%d", op, h)
+	}
+	return op + ":" + base
+}
+
+var errInjected = errors.New("injected I/O error")
+
+func (e *Exec) hook(op, path string) error {
+	c := e.classify(op, path)
+	if c == "" {
+		return nil
+	}
+	e.nmut++
+	if e.crashAt > 0 && e.nmut == e.crashAt {
+		// the process dies just before this mutation
+		call := "?"
+		if e.curCall != nil {
+			call = e.curCall()
+		}
+		fmt.Fprintf(e.out, "crash at=%d %s\n", len(e.fsops), call)
+		e.out.Flush()
+		e.saveState()
+		os.Exit(77)
+	}
+	if e.failAt > 0 && e.nmut == e.failAt {
+		e.failed = true
+		e.fsops = append(e.fsops, "FAIL:"+c)
+		return errInjected
+	}
+	e.fsops = append(e.fsops, c)
+	return nil
+}
+
+type savedState struct {
+	Kmap    map[int]string `json:"kmap"`
+	Handles map[string]int `json:"handles"`
+	Ext     string         `json:"ext"`
+	Gz      bool           `json:"gz"`
+	Lower   bool           `json:"lower"`
+}
+
+func (e *Exec) saveState() {
+	if e.stateOut == "" {
+		return
+	}
+	b, _ := json.Marshal(savedState{e.kmap, e.handles, e.ext, e.gz, e.lower})
+	os.WriteFile(e.stateOut, b, 0600)
+}
+
+func (e *Exec) loadState(path string) {
+	b, err := os.ReadFile(path)
+	if err != nil {
+		panic(err)
+	}
+	var st savedState
+	if err := json.Unmarshal(b, &st); err != nil {
+		panic(err)
+	}
+	e.kmap, e.handles, e.ext, e.gz, e.lower = st.Kmap, st.Handles, st.Ext, st.Gz, st.Lower
 }
 
 // guard runs f, turning a panic into the result "PANIC".
@@ -258,12 +370,15 @@ func (e *Exec) Run(op Op) {
 			return
 		}
 	}
-	if (e.db == nil && op.Op != "open") || e.aborted {
+	if (e.db == nil && op.Op != "open" && op.Op != "reopen") || e.aborted {
 		return
 	}
+	e.curCall = nil
 	switch op.Op {
 	case "open":
 		sod.LowercaseNames = op.Lower
+		e.lower = op.Lower
+		shimInstall(e.hook)
 		e.db = sod.Open(e.root)
 		e.emit(fmt.Sprintf("open live=%s hooks=1", liveToken()), "ok")
 		// validate the model's case table on the alphabet in use
@@ -289,6 +404,7 @@ func (e *Exec) Run(op Op) {
 		for _, l := range leaves {
 			fmt.Fprintf(call, " d=%s|%s|%s|%s", l.Path, l.Type, l.Cast, consOf(op.Cons, l.Path))
 		}
+		e.curCall = func() string { return call.String() }
 		res := guard(func() string { return errClass(e.db.Create(&T{}, sch)) })
 		if res == "ok" {
 			// remember the on-disk naming of the collection (first successful create fixes it)
@@ -310,15 +426,19 @@ func (e *Exec) Run(op Op) {
 			}
 		}
 		tok := e.objToken(t)
-		res := guard(func() string { return errClass(e.db.InsertOrUpdate(t)) })
-		nw := 0
-		if !had && t.UUID() != "" {
-			nw = e.handle(t.UUID())
-			if op.Spec.K > 0 {
-				e.kmap[op.Spec.K] = t.UUID()
+		call := func() string {
+			nw := 0
+			if !had && t.UUID() != "" {
+				nw = e.handle(t.UUID())
+				if op.Spec.K > 0 {
+					e.kmap[op.Spec.K] = t.UUID()
+				}
 			}
+			return fmt.Sprintf("ins %s new=%d", tok, nw)
 		}
-		e.emit(fmt.Sprintf("ins %s new=%d", tok, nw), res)
+		e.curCall = call
+		res := guard(func() string { return errClass(e.db.InsertOrUpdate(t)) })
+		e.emit(call(), res)
 
 	case "many", "bulk":
 		objs := make([]sod.Object, 0, len(op.Specs))
@@ -357,6 +477,24 @@ func (e *Exec) Run(op Op) {
 			had = append(had, h)
 			fmt.Fprintf(call, " o=%s", e.objToken(t))
 		}
+		prefix := call.String()
+		full := func() string {
+			news := make([]string, 0, len(ts))
+			for i, t := range ts {
+				nw := 0
+				if !had[i] && t.UUID() != "" {
+					nw = e.handle(t.UUID())
+					if op.Specs[i].K > 0 {
+						if _, ok := e.kmap[op.Specs[i].K]; !ok {
+							e.kmap[op.Specs[i].K] = t.UUID()
+						}
+					}
+				}
+				news = append(news, fmt.Sprintf("%d", nw))
+			}
+			return prefix + " news=" + strings.Join(news, ",")
+		}
+		e.curCall = full
 		var res string
 		if op.Op == "many" {
 			res = guard(func() string {
@@ -379,29 +517,18 @@ func (e *Exec) Run(op Op) {
 				return fmt.Sprintf("%d %s", n, errClass(err))
 			})
 		}
-		news := make([]string, 0, len(ts))
-		for i, t := range ts {
-			nw := 0
-			if !had[i] && t.UUID() != "" {
-				nw = e.handle(t.UUID())
-				if op.Specs[i].K > 0 {
-					if _, ok := e.kmap[op.Specs[i].K]; !ok {
-						e.kmap[op.Specs[i].K] = t.UUID()
-					}
-				}
-			}
-			news = append(news, fmt.Sprintf("%d", nw))
-		}
-		fmt.Fprintf(call, " news=%s", strings.Join(news, ","))
-		e.emit(call.String(), res)
+		e.emit(full(), res)
 
 	case "del":
 		u := e.uuidOfK(op.K)
 		t := &T{}
 		t.Initialize(u)
-		e.emit(fmt.Sprintf("del %d", e.handle(u)), guard(func() string { return errClass(e.db.Delete(t)) }))
+		txt := fmt.Sprintf("del %d", e.handle(u))
+		e.curCall = func() string { return txt }
+		e.emit(txt, guard(func() string { return errClass(e.db.Delete(t)) }))
 
 	case "delall":
+		e.curCall = func() string { return "delall" }
 		e.emit("delall", guard(func() string { return errClass(e.db.DeleteAll(&T{})) }))
 
 	case "get", "getu":
@@ -517,14 +644,18 @@ func (e *Exec) Run(op Op) {
 
 	case "sdel":
 		s := e.srch[op.Sid]
+		e.curCall = func() string { return fmt.Sprintf("sdel %d", op.Sid) }
 		e.emit(fmt.Sprintf("sdel %d", op.Sid), guard(func() string { return errClass(s.Delete()) }))
 
 	case "aidx":
 		e.emit(fmt.Sprintf("aidx %s", hx(op.Field)), guard(func() string { return e.assignIndex(op.Field) }))
 
+	case "consistent":
+		e.emit("consistent", guard(func() string { return e.consistent() }))
 	case "control":
 		e.emit("control", guard(func() string { return errClass(e.db.Control()) }))
 	case "repair":
+		e.curCall = func() string { return "repair" }
 		res := guard(func() string { return errClass(e.db.Repair(&T{})) })
 		e.emit("repair", res)
 		if res == "E:unique" {
@@ -533,17 +664,23 @@ func (e *Exec) Run(op Op) {
 			e.aborted = true
 		}
 	case "close":
+		e.curCall = func() string { return "close" }
 		e.emit("close", guard(func() string { return errClass(e.db.Close()) }))
 	case "reopen":
 		// abandon the handle (its flusher, if any, is stopped so that it cannot write later)
+		sod.LowercaseNames = e.lower
+		shimInstall(e.hook)
 		e.db = sod.Open(e.root)
 		e.srch = map[int]*sod.Search{}
 		e.emit("reopen", "ok")
 	case "commit":
+		e.curCall = func() string { return "commit" }
 		e.emit("commit", guard(func() string { return errClass(e.db.Commit(&T{})) }))
 	case "flushall":
+		e.curCall = func() string { return "flushall" }
 		e.emit("flushall", guard(func() string { return errClass(e.db.FlushAll(&T{})) }))
 	case "flushallc":
+		e.curCall = func() string { return "flushallc" }
 		e.emit("flushallc", guard(func() string { return errClass(e.db.FlushAllAndCommit(&T{})) }))
 
 	case "rmfile":
@@ -667,6 +804,8 @@ func (e *Exec) ls() string {
 				schema = 1
 			case strings.HasSuffix(n, suffix) && len(n) == 36+len(suffix) && !en.IsDir():
 				hs = append(hs, e.handle(strings.TrimSuffix(n, suffix)))
+			case opts.recover && strings.HasPrefix(n, ".") && strings.HasSuffix(n, ".tmp"):
+				// temporary file left by the crash: invisible to the database
 			default:
 				extra = append(extra, n)
 			}
@@ -843,4 +982,43 @@ func reshape(m map[string]interface{}, variant int) {
 			d["type"] = "int"
 		}
 	}
+}
+
+// consistent is the oracle "the index and the stored files agree": for every indexed field
+// the multiset of indexed values equals the multiset of that field over All().
+func (e *Exec) consistent() string {
+	sch, err := e.db.Schema(&T{})
+	if err != nil {
+		return errClass(err)
+	}
+	objs, err := e.db.All(&T{})
+	if err != nil {
+		return "false"
+	}
+	for _, fd := range sch.Indexed() {
+		li := leafIndex(fd.Path)
+		if li < 0 {
+			continue
+		}
+		res := e.assignIndex(fd.Path)
+		if !strings.HasSuffix(res, "] ok") {
+			return "false"
+		}
+		inner := strings.TrimSuffix(strings.TrimPrefix(res, "["), "] ok")
+		got := []string{}
+		if inner != "" {
+			got = strings.Split(inner, " ")
+		}
+		want := []string{}
+		for _, o := range objs {
+			_, vals := flatten(o.(*T))
+			want = append(want, vals[li])
+		}
+		sort.Strings(got)
+		sort.Strings(want)
+		if strings.Join(got, " ") != strings.Join(want, " ") {
+			return "false"
+		}
+	}
+	return "true"
 }
